@@ -24,12 +24,15 @@ import (
 )
 
 type Case struct {
-	Kind    string         `json:"kind"` // tree | store
-	Parents []int          `json:"parents,omitempty"`
-	LibLag  int            `json:"lib_lag,omitempty"`
-	Prod    bool           `json:"prod,omitempty"`
-	Combo   refmodel.Combo `json:"combo,omitempty"`
-	Hist    []histx.Event  `json:"history,omitempty"`
+	Kind    string `json:"kind"` // tree | store
+	Parents []int  `json:"parents,omitempty"`
+	LibLag  int    `json:"lib_lag,omitempty"`
+	Prod    bool   `json:"prod,omitempty"`
+	// the request starts this many blocks above the first block: the blocks below are executed silently (stores are
+	// built from their initial block, outputs are gated at the start block) and can be undone like any other
+	StartAbove int            `json:"start_above,omitempty"`
+	Combo      refmodel.Combo `json:"combo,omitempty"`
+	Hist       []histx.Event  `json:"history,omitempty"`
 }
 
 const genesis = 10
@@ -75,7 +78,7 @@ func evalTree(c Case) (*core.Fail, bool) {
 		for _, x := range steps {
 			st = append(st, fmt.Sprintf("%s:%s", x.Step, x.ID))
 		}
-		return fmt.Sprintf("arrival [%s] lib-lag=%d prod=%v steps [%s]", strings.Join(s, " "), c.LibLag, c.Prod, strings.Join(st, " "))
+		return fmt.Sprintf("arrival [%s] lib-lag=%d prod=%v request starts at %d steps [%s]", strings.Join(s, " "), c.LibLag, c.Prod, genesis+1+c.StartAbove, strings.Join(st, " "))
 	}
 	dir := sysrun.Scratch("c03")
 	defer os.RemoveAll(dir)
@@ -126,7 +129,7 @@ func evalTree(c Case) (*core.Fail, bool) {
 		}
 	}
 	atomic.AddInt64(&runs, 1)
-	cfg := sysrun.Config{Modules: p.Modules, Output: p.Output, Prod: c.Prod, Seg: 10, Start: genesis + 1, Stop: 0, Final: genesis, Dir: dir, Source: tree, AfterLinearBlock: after, Timeout: 15 * time.Second}
+	cfg := sysrun.Config{Modules: p.Modules, Output: p.Output, Prod: c.Prod, Seg: 10, Start: int64(genesis + 1 + c.StartAbove), Stop: 0, Final: genesis, Dir: dir, Source: tree, AfterLinearBlock: after, Timeout: 15 * time.Second}
 	r := sysrun.Run(cfg)
 	if fail != nil {
 		return fail, hasUndo
@@ -170,13 +173,33 @@ func evalTree(c Case) (*core.Fail, bool) {
 			}
 		}
 	}
-	// at the end: exactly the canonical chain's blocks with the payloads of a fork-free run of that chain
+	// at the end: exactly the canonical chain's blocks from the start block on, with the payloads of a fork-free run of that chain
 	it, _ := script.NewInterp(p.Modules, p.Output)
-	if len(client) != len(chain) {
-		return core.Failf("client-does-not-converge", "%s: client holds %v, canonical chain is %v", desc(), client, chain), hasUndo
+	startBlock := uint64(genesis + 1 + c.StartAbove)
+	// an undo step opens the output gate by design (pipeline/gate.go blockTriggersGate: a request resumed from a cursor
+	// on a forked block must receive the undo and the blocks that replace its own): after a reorg below the start block
+	// the client legitimately holds canonical blocks below the start block. What must hold is that it holds a
+	// contiguous tail of the canonical chain that includes every block from the start block on.
+	if len(client) > 0 && client[0].num < startBlock && hasUndo {
+		startBlock = client[0].num
 	}
-	for i, b := range chain {
+	var visible []script.Blk
+	for _, b := range chain {
+		if b.Num >= startBlock {
+			visible = append(visible, b)
+		}
+	}
+	if len(client) != len(visible) {
+		return core.Failf("client-does-not-converge", "%s: client holds %v, the canonical chain from the start block is %v", desc(), client, visible), hasUndo
+	}
+	vi := 0
+	for _, b := range chain {
 		res := it.Step(b)
+		if b.Num < startBlock {
+			continue
+		}
+		i := vi
+		vi++
 		if client[i].id != b.ID || client[i].payload != res.Payload[p.Output] {
 			return core.Failf("client-does-not-converge", "%s: at %d the client holds %s %q, a fork-free run of the canonical chain gives %s %q", desc(), i, client[i].id, client[i].payload, b.ID, res.Payload[p.Output]), hasUndo
 		}
@@ -323,7 +346,24 @@ func Run(ctx *core.Ctx) int {
 	if ctx.Thorough() {
 		n2, n3 = 14, 10
 	}
-	st := core.ParallelEnum(ctx, func(emit func(Case) bool) { EnumTrees(maxN, n2, n3, emit) }, Eval)
+	st := core.ParallelEnum(ctx, func(emit func(Case) bool) {
+		EnumTrees(maxN, n2, n3, func(c Case) bool {
+			if !emit(c) {
+				return false
+			}
+			// the same history served to a request that starts above the first blocks
+			if c.LibLag == 0 && !c.Prod && len(c.Parents) >= 3 && len(c.Parents) <= maxN+2 {
+				for _, k := range []int{1, 2} {
+					v := c
+					v.StartAbove = k
+					if !emit(v) {
+						return false
+					}
+				}
+			}
+			return true
+		})
+	}, Eval)
 	ctx.Sample(Case{Kind: "tree", Parents: []int{0, 0, 2, 1, 4, 3, 6}, LibLag: 0})
 	ctx.Cov["evaluations"] = st.Evaluations + int64(sTrans)
 	ctx.Cov["distinct_nontrivial"] = st.NonTrivial + int64(sUndos)
